@@ -17,12 +17,10 @@ import (
 	"context"
 	"fmt"
 	"net"
-	"reflect"
 
 	"github.com/miekg/dns"
 
 	"github.com/honeytrap/honeytrap/event"
-	"github.com/honeytrap/honeytrap/listener"
 	"github.com/honeytrap/honeytrap/pushers"
 )
 
@@ -52,24 +50,14 @@ func (s *dnsService) Handle(ctx context.Context, conn net.Conn) error {
 
 	buff := make([]byte, 65535)
 
-	if _, ok := conn.(*listener.DummyUDPConn); ok {
-		n, err := conn.Read(buff[:])
-		if err != nil {
-			return err
-		}
-
-		buff = buff[:n]
-	} else if _, ok := conn.(*net.TCPConn); ok {
-		n, err := conn.Read(buff[:])
-		if err != nil {
-			return err
-		}
-
-		buff = buff[:n]
-	} else {
-		log.Error("Unsupported connection type: %s", reflect.TypeOf(conn))
-		return nil
+	// the server hands us the connection wrapped (timeouts), so do not
+	// depend on its concrete type
+	n, err := conn.Read(buff[:])
+	if err != nil {
+		return err
 	}
+
+	buff = buff[:n]
 
 	req := new(dns.Msg)
 	if err := req.Unpack(buff[:]); err != nil {
